@@ -11,6 +11,9 @@ import Verif.C15.RoundTrip
 import Verif.C15.TopLevel
 import Verif.C15.Files
 import Verif.C15.Second
+import Verif.C15.Shapes
+import Verif.C15.DocStable
+import Verif.C15.Layout
 
 namespace Verif.C15
 open Verif.Tables
@@ -53,6 +56,13 @@ theorem fmtDoc_escape_stable (k : Nat) (d : Str) : escapeDoc (fmtDoc k d) = fmtD
   unfold fmtDoc
   exact escapeDoc_idem _
 
+/-- "formatting the parsed entity gives the same text" (docstrings, in full): the parser hands back
+the written contents `fmtDoc k d` as the docstring; formatting them again at the same indentation
+(`textwrap.dedent`, `split('\n')`, dropping the blank first/last line, re-indenting, escaping) gives
+exactly the same contents — for EVERY documentation text and every indentation. -/
+theorem fmtDoc_stable (k : Nat) (d : Str) : fmtDoc k (fmtDoc k d) = fmtDoc k d :=
+  fmtDoc_idem k d
+
 /-- regression (F42, repaired): a docstring that is one blank line is formatted. -/
 example : fmtDoc 2 ['\n'] = ['\n', ' ', ' ', '\n', ' ', ' '] := by decide
 
@@ -61,9 +71,13 @@ example : fmtDoc 2 (fmtDoc 2 ['x', '\n', '\n', '\n']) = fmtDoc 2 ['x', '\n', '\n
 
 /-! ## Feature-structure access -/
 
-/-- "a value stored under a dotted path is retrieved by that path in any letter case":
-whenever `fs[p] = v` succeeds, `fs[p']` returns `v` for every `p'` that equals `p` up to
-letter case (component-wise `upper`). -/
+/-- "a value stored under a dotted path is retrieved by that path in any letter case", for paths
+THROUGH PLAIN AVMs (`tfs.FeatureStructure` semantics): whenever `fs[p] = v` succeeds in the model,
+`fs[p']` returns `v` for every `p'` that equals `p` up to letter case (component-wise `upper`).
+`setPath` answers `unmodelled` — so nothing is claimed — when the path runs into a ConsList/DiffList
+(whose FIRST/REST structure the model abstracts to values+end) or into a Conjunction (where the code
+sets in the last AVM but reads the conjunction of ALL AVMs' values, so the clause does not hold as
+stated). -/
 theorem getPath_setPath : ∀ (p : List Str) (fs fs' : Feats) (v : Val), setPath fs p v = .ok fs' →
     ∀ p' : List Str, p'.map upper = p.map upper → getPath fs' p' = .ok v := by
   intro p
@@ -127,11 +141,12 @@ theorem getPath_setPath : ∀ (p : List Str) (fs fs' : Feats) (v : Val), setPath
               | cons _ _ _ => cases h
               | diff _ _ => cases h
 
-/-- setting below a value that is not a structure is the `TFSError` of the code. -/
-theorem setPath_through_type_term :
-    setPath (.cons "A".toList (.term (.ident none "x".toList)) .nil) ["a".toList, "b".toList]
-      (.term (.ident none "y".toList)) = .error .tfsError := by rfl
-
+/-- setting below a value that is not a structure (a type term or a coreference) is the `TFSError`
+of the code — for every structure, path and value. -/
+theorem setPath_below_type_term (fs : Feats) (k k2 : Str) (p : List Str) (v : Val) (t : Term)
+    (hl : fs.lookup (upper k) = some (.term t)) (ht : isAvmLike t = false) :
+    setPath fs (k :: k2 :: p) v = .error .tfsError :=
+  setPath_below_nonstructure fs k k2 p v t hl ht
 
 /-! ## Expanded features -/
 
@@ -146,10 +161,34 @@ theorem expandTop_roundtrip (ts : Terms) : expandTop (canonTerms ts) = expandTop
 theorem expandVal_roundtrip (v : Val) (pre : List Str) : expandVal pre (canonVal v) = expandVal pre v :=
   expand_canonVal v pre
 
-/-- "cons and diff lists (open, closed, dotted)": a list of `n` items expands to the `REST^i.FIRST`
-paths; closed lists add `REST^n` = None, open lists add nothing, dotted lists add the end's
-expansion at `REST^n`. (Checked here on the shapes of the ConsList table.) -/
-theorem expand_list_shapes :
+/-- "cons and diff lists (open, closed, dotted)": EVERY cons list of `n` leaf items (any docstring,
+any `n`) expands to the paths `REST^i.FIRST` (`i < n`, in order) followed by its end: a closed list
+adds `REST^n` = None (nothing when empty), an open list adds nothing, a dotted list adds its end at
+`REST^n` (`expandEnd_shapes`). -/
+theorem expand_cons_list_general (pre : List Str) (d : Option Str) (ts : List Term) (e : End)
+    (h : ∀ t ∈ ts, isAvmLike t = false) :
+    expandTerm pre (.cons d (Items.ofList (ts.map Val.term)) e)
+      = (ts.zipIdx 0).map (fun ti => (restPath pre ti.2 ++ ["FIRST".toList], some ti.1))
+        ++ expandEnd (restPath pre ts.length) ts.isEmpty e :=
+  expand_cons_list pre d ts e h
+
+theorem expand_list_end_general (pre : List Str) (n : Nat) (emp : Bool) (w : Term) (hw : isAvmLike w = false) :
+    expandEnd (restPath pre n) emp .closed = (if emp then [] else [(restPath pre n, none)])
+    ∧ expandEnd (restPath pre n) emp .opn = []
+    ∧ expandEnd (restPath pre n) emp (.dotted (.term w)) = [(restPath pre n, some w)] :=
+  expandEnd_shapes pre n emp w hw
+
+/-- every diff list of leaf items: the items under `LIST`, then the anonymous coreference at the tail
+of `LIST` and under `LAST`. -/
+theorem expand_diff_list_general (pre : List Str) (d : Option Str) (ts : List Term)
+    (h : ∀ t ∈ ts, isAvmLike t = false) :
+    expandTerm pre (.diff d (Items.ofList (ts.map Val.term)))
+      = (ts.zipIdx 0).map (fun ti => (restPath (pre ++ ["LIST".toList]) ti.2 ++ ["FIRST".toList], some ti.1))
+        ++ [(restPath (pre ++ ["LIST".toList]) ts.length, some anonCoref), (pre ++ ["LAST".toList], some anonCoref)] :=
+  expand_diff_list pre d ts h
+
+/-- an instance: `< a, a >`, `< a, ... >`, `< a . #x >`, `< >`, `< ... >` -/
+example :
     let a : Val := .term (.ident none ['a'])
     let b : Val := .term (.coref none ['x'])
     expandTerm [] (.cons none (.cons a (.cons a .nil)) .closed)
@@ -161,7 +200,6 @@ theorem expand_list_shapes :
     ∧ expandTerm [] (.cons none .nil .closed) = []
     ∧ expandTerm [] (.cons none .nil .opn) = [] := by
   simp [expandTerm, expandItems, expandEnd, expandVal, restPath, Items.length, Items.isNil]
-
 
 /-! ## Parsing what was formatted (token level)
 
@@ -247,6 +285,16 @@ theorem second_format_item (x : Item) (hc : ∀ ts, x.terms? = some ts → clean
     toksItem (canonItem x) = toksItem x := by
   cases x <;> simp_all [canonItem, toksItem, Item.terms?, toksTerms_canon]
 
+/-- ... with the docstrings as the code has them: the first text is `toksItem (layoutItem x)` (every
+docstring replaced by its formatted contents), the parser returns `canonItem (layoutItem x)` whose
+docstrings ARE those contents, and the second `format` lays them out again; by `fmtDoc_stable` the
+tokens, docstring tokens included, are the same. (`layoutItem` takes the indentation as 0 because
+the harness strips the real indentation from lexed docstrings; `fmtDoc_stable` holds for every
+indentation.) -/
+theorem second_format_with_docstrings (x : Item) (hc : ∀ ts, x.terms? = some ts → cleanTerms ts = true) :
+    toksItem (layoutItem (canonItem (layoutItem x))) = toksItem (layoutItem x) :=
+  second_layout_item x hc
+
 /-- ... and therefore parsing the second text gives the same value again. -/
 theorem parse_second_format (v : Val) (hw : wfVal v = true) (hc : cleanVal v = true) (n : Nat)
     (hn : 6 * (toksVal v).length + 2 ≤ n) (rest : List Tok) (hr : noAmp rest) :
@@ -263,8 +311,9 @@ theorem parse_second_format (v : Val) (hw : wfVal v = true) (hc : cleanVal v = t
 --   indentation only insert white space between tokens, and that the regex lexer returns the
 --   string/regex/identifier tokens — is compared on every generated entity, not proved
 --   (docstrings and block comments excepted: `scan_fmtDoc`).
--- * `fmtDoc k (fmtDoc k d) = fmtDoc k d` (dedent/re-indent stability of a docstring) is checked by
---   the oracle and the `doc` correspondence cases, not proved.
+-- * that removing the real indentation from a lexed docstring gives the indentation-0 contents
+--   (`unindent (fmtDoc k d) = fmtDoc 0 d`, used by the harness to compare docstring tokens) is part of
+--   the layout abstraction: compared on every case, not proved.
 
 /-- F44 (model level): the second formatting differs from the first when a feature value is a
 one-term Conjunction around a one-feature AVM — `[ A [ B x ] ]` comes back as `[ A.B x ]`. -/
